@@ -494,6 +494,35 @@ def history(ctx, nph=1, steps=2, ncls=2):
     ctx.prove("initial entry is the state before the first step", ctx.all([ctx.eq(sm.solidStrength[0], wA * d.composition[0, 0])] + [ctx.eq(sm.rss[0, p], 0.0, rtol=0.0) for p in range(nph)]))
 
 
+def history_long(ctx, nph=1, steps=1030):
+    """the real StrengthModel.updateCoupledModel over a LONG coupled run (more entries than any plausible buffer chunk): every entry of the three
+    histories is the value computed on its own host step.  The per-step terms (rssterm, Lsterm, ssStrength -- C18.history checks them) are replaced
+    on the instance by affine functions of the step number with symbolic coefficients, so that an entry that is dropped, shifted or written twice
+    is visible to the solver whatever the coefficients"""
+    m, d = mk_host(ctx, nph, 2, 2)
+    sm = StrengthModel()
+    a = ctx.real("a", (0.5, 3.0)); b = ctx.real("b", (0.5, 3.0)); c = ctx.real("c", (0.5, 3.0))
+    for v in (a, b, c):
+        ctx.assume(v > 0)
+    step = [0]
+    sm.rssterm = lambda model, p: a * (step[0] + 1 + p)
+    sm.Lsterm = lambda model, p: b * (2 * step[0] + 1 + p)
+    sm.ssStrength = lambda model, n: c * (step[0] + 3)
+    for k in range(1, steps + 1):
+        step[0] = k
+        sm.updateCoupledModel(m)
+    ok_shape = np.shape(sm.rss) == (steps + 1, nph) and np.shape(sm.ls) == (steps + 1, nph) and np.shape(sm.solidStrength) == (steps + 1,)
+    ctx.prove("one history entry per host step (plus the initial state) over a long run", ok_shape)
+    if not ok_shape:
+        return
+    for lo in range(1, steps + 1, 128):
+        ks = range(lo, min(lo + 128, steps + 1))
+        ctx.prove("every entry of a long history is the value computed on its own host step",
+                  ctx.all([ctx.eq(sm.rss[k, p], a * (k + 1 + p), rtol=0.0) for k in ks for p in range(nph)] +
+                          [ctx.eq(sm.ls[k, p], b * (2 * k + 1 + p), rtol=0.0) for k in ks for p in range(nph)] +
+                          [ctx.eq(sm.solidStrength[k], c * (k + 3), rtol=0.0) for k in ks]))
+
+
 def host_step(ctx, nph=1, mode="or", steps=2):
     """the real PrecipitateBase.postProcess of a host that has BOTH coupled models and a stopping condition: on every host step --
     also on the one on which the condition fires and the run stops -- each coupled model is updated exactly once (strength history
@@ -850,6 +879,9 @@ HARNESSES = [
     Harness("C18.history", history, functions=_FS + _FG, assumptions=_A + ["host history arrays and size distributions arbitrary >= 0"],
             bounds={"phases": "nph", "host steps": "steps", "size classes": "ncls"},
             params={"quick": [{"nph": 1, "steps": 2, "ncls": 2}, {"nph": 2, "steps": 1, "ncls": 2}], "thorough": [{"nph": 2, "steps": 2, "ncls": 2}, {"nph": 1, "steps": 3, "ncls": 3}]}),
+    Harness("C18.history_long", history_long, functions=[StrengthModel.updateCoupledModel], assumptions=_A + ["per-step terms replaced by affine functions of the step number with symbolic positive coefficients"],
+            stubs=["rssterm, Lsterm, ssStrength on the instance (their values are the subject of C18.history)"], bounds={"host steps": "steps"},
+            params={"quick": [{"nph": 1, "steps": 1030}], "thorough": [{"nph": 2, "steps": 2100}, {"nph": 1, "steps": 4200}]}),
     Harness("C18.gg_couple", gg_couple, functions=_FG, assumptions=_A + ["Zener exponent m = 1 (default)"], stubs=["GrainGrowthModel.solve replaced on the instance by a recorder (the solve itself: C05, C18.gg_frozen)"],
             params={"quick": [{"nph": 1, "N": 2}, {"nph": 2, "N": 3}], "thorough": [{"nph": 3, "N": 3}]}),
     Harness("C18.gg_frozen", gg_frozen, functions=_FG, assumptions=_A + ["pinning strong enough to freeze every boundary (z * smallest grain radius >= 1)", "host step > 0; host times, grain-growth clock and precipitate volume fraction symbolic"],
